@@ -213,8 +213,17 @@ impl<L: Lit> Renumber<L> {
 
         for latch in &aig.latches {
             self.last_code += 2;
-            self.lit_map
-                .insert(latch.state, L::from_code(self.last_code));
+            if self.defs.contains_key(&latch.state)
+                || self
+                    .defs
+                    .contains_key(&L::from_code(1 ^ latch.state.code()))
+                || self
+                    .lit_map
+                    .insert(latch.state, L::from_code(self.last_code))
+                    .is_some()
+            {
+                return Err(AigStructureError::LitAlreadyDefined { lit: latch.state });
+            }
         }
 
         if !self.config.trim {
